@@ -48,6 +48,7 @@ def compile_files(files: Dict[str, str], opts=(), tag="s", descriptor_only=False
         with open(p, "w") as fh:
             fh.write(text)
     names = sorted(files)
+    order = order or getattr(files, "order", None)
     if order == "reversed":
         names = names[::-1]
     elif isinstance(order, int) and names:
